@@ -152,3 +152,28 @@ Definition last_after (tbl : list (text * score)) (st : bz) (o : op) : Q :=
       | None => b_last st
       end
   end.
+
+(* [nonpositive_call], with a beep that has no frequency argument judged by the last frequency *)
+Definition nonpositive_in (last : Q) (o : op) : bool :=
+  match o with
+  | Beep None _ _ _ => qle last q0
+  | Melody _ _ => false
+  | _ => nonpositive_call o
+  end.
+
+(* ---- width of the tone() argument (unsigned int: 16 bits on AVR).  A call whose frequency arguments
+   are all <= M, on a table whose notes are all <= M ---- *)
+Definition freq_le (M : Q) (o : op) : bool :=
+  match o with
+  | PlayTone f _ => qle f M
+  | Stop => true
+  | Beep (Some f) _ _ _ => qle f M
+  | Beep None _ _ _ => true
+  | Sweep s e _ _ => qle s M && qle e M
+  | Melody _ _ => true
+  end.
+Definition notes_le (M : Q) (seq : list (Q * Q)) : bool := forallb (fun fb => qle (fst fb) M) seq.
+Definition table_le (M : Q) (tbl : list (text * score)) : bool :=
+  forallb (fun kv => notes_le M (snd (snd kv))) tbl.
+Definition tone_le (T : Z) (e : ev) : Prop :=
+  match e with Tone _ t => 0 <= t <= T | _ => True end.
